@@ -32,5 +32,5 @@ Proof. unfold datagram, respond_query.
   match goal with |- context [if ?b then _ else _] => destruct b end; cbn [snd]; discriminate. Qed.
 
 Definition sites_C16_counts : Prop :=
-  ncmp_listener_AsyncListener_datagram_received = 1 /\ ncmp_listener_AsyncListener_process_datagram_at_time = 1.
-Lemma sites_C16_counts_ok : sites_C16_counts. Proof. split; reflexivity. Qed.
+  sites_found_C16 = true /\ ncmp_listener_AsyncListener_datagram_received = 1 /\ ncmp_listener_AsyncListener_process_datagram_at_time = 1.
+Lemma sites_C16_counts_ok : sites_C16_counts. Proof. repeat split; reflexivity. Qed.
